@@ -349,5 +349,7 @@ class CGMYModel(LevyModel):
 
 class ExponentialOfCGMYModel(ExponentialOfLevyModel):
     def __init__(self, spot: float, r: float, d: float, parameters: CGMYParameters):
+        if parameters.m < 1 or (parameters.m == 1 and parameters.y <= 0):
+            raise ValueError("E[exp(L_1)] is finite only for m > 1 (or m = 1 and y > 0)")
         cgmy_model = CGMYModel(parameters=parameters)
         super().__init__(spot=spot, r=r, d=d, levy_model=cgmy_model)
